@@ -1,5 +1,231 @@
-import FlexModel.Geo.Router
+/-
+C06 — Multi-hop packets: at-most-once delivery and forwarding, shrinking hop budget, CBF cancellation, termination.
+Property theorems only.  Model: `FlexModel/Geo/Router.lean` over `FlexModel/Geo/LocT.lean` (both mirror the code after
+the repairs fixes/C06-* and fixes/C08-*); helper lemmas: `FlexModel/Geo/RouterLemmas.lean`.
+
+`c.loct.v = {}`, `c.gacFix = true`, `c.cbfFix = true` select the repaired code.  Geometry, PDR gate, greedy outcome and
+CBF timeout are arbitrary (`env : Env` is universally quantified everywhere).
+-/
+import FlexModel.Geo.RouterLemmas
+
 namespace Props.C06
 open FlexModel.Geo
-theorem placeholder_fwd (p : Pkt) : (fwd p).rhl = p.rhl - 1 := rfl
+
+/-! ## Duplicate packet list (annex A.2): a ring of the last L accepted sequence numbers -/
+
+/-- for every ring length `L > 0` and every stream of sequence numbers (any values, so also across the 2^16 wrap):
+the code's verdicts equal "sn is among the last L accepted sequence numbers" -/
+theorem dpl_ring (L : Nat) (hL : 0 < L) (sns : List Nat) : dplImpl L [] sns = dplSpec L [] sns := by
+  have := dpl_ring_gen L hL sns []
+  simpa [lastN] using this
+
+example : dplImpl 2 [] [65535, 0, 65535, 1, 65535] = [false, false, true, false, false] := by decide
+
+/-! ## One reception (all states, all packets, all opaque inputs) -/
+
+/-- a station never delivers, forwards, buffers or answers a packet bearing its own address (MID) -/
+theorem never_own_address (c : RCfg) (s : RSt) (p : Pkt) (env : Env) (now : Nat)
+    (h : mid p.so = mid c.loct.self) : recvR c s p env now = (s, []) := by
+  unfold recvR
+  by_cases h1 : p.rhl > p.mhl
+  · simp [h1]
+  · simp [h1, recv_dad _ _ _ _ _ _ _ h]
+
+/-- every forwarded copy equals the received packet except for an RHL exactly one lower and, for GUC / LS reply, a DE
+position vector that is the strictly newer PV of a neighbour's location table entry; it is only produced for a received
+RHL ≥ 2, and its RHL does not exceed the MHL -/
+theorem forward_is_copy (c : RCfg) (hg : c.gacFix = true) (s : RSt) (p : Pkt) (env : Env) (now : Nat) (q : Pkt)
+    (h : Act.send q ∈ (recvR c s p env now).2) :
+    2 ≤ p.rhl ∧ q.rhl + 1 = p.rhl ∧ q.rhl ≤ q.mhl ∧
+    (q = { p with rhl := p.rhl - 1 } ∨
+      ((p.kind = .guc ∨ p.kind = .lsRep) ∧
+        ∃ e, lookup (recvR c s p env now).1.t p.de = some e ∧ e.isNeighbour = true ∧
+          TST.gt e.pv.tst p.dePV.tst = true ∧ q = { p with rhl := p.rhl - 1, dePV := e.pv })) := by
+  rcases recvR_acts c hg s p env now _ h with ⟨hc, _⟩ | ⟨hok, hle, hrok⟩
+  · cases hc
+  obtain ⟨h2, hcopy⟩ := hok.1 q rfl
+  have ht : (recvR c s p env now).1.t = (recv c.loct s.t p.kind p.so p.soPV p.sn now).1 := by
+    rw [recvR_t, if_neg (by omega)]
+  rcases hcopy with rfl | ⟨hk, rfl⟩
+  · exact ⟨h2, by simp only [fwd]; omega, by simp only [fwd]; omega, Or.inl rfl⟩
+  · rcases refreshDE_spec (recv c.loct s.t p.kind p.so p.soPV p.sn now).1 p with hr | ⟨e, h1, h2', h3, hr⟩
+    · rw [hr]
+      exact ⟨h2, by simp only [fwd]; omega, by simp only [fwd]; omega, Or.inl rfl⟩
+    · rw [hr]
+      refine ⟨h2, by simp only [fwd]; omega, by simp only [fwd]; omega, Or.inr ⟨hk, e, ?_, h2', h3, rfl⟩⟩
+      rw [ht]; exact h1
+
+/-- no copy is emitted, and none is put into the CBF buffer, when the received hop limit is 0 or 1 -/
+theorem no_forward_rhl_le_1 (c : RCfg) (hg : c.gacFix = true) (s : RSt) (p : Pkt) (env : Env) (now : Nat)
+    (h : p.rhl ≤ 1) : ∀ act ∈ (recvR c s p env now).2, (∀ q, act ≠ .send q) ∧ (∀ k ms, act ≠ .arm k ms) := by
+  intro act hact
+  rcases recvR_acts c hg s p env now act hact with ⟨hc, _⟩ | ⟨hok, _, _⟩
+  · subst hc; exact ⟨fun _ hq => (by cases hq), fun _ _ hq => (by cases hq)⟩
+  · refine ⟨fun q hq => ?_, fun k ms hq => ?_⟩
+    · have := (hok.1 q hq).1; omega
+    · have := (hok.2.1 k ms hq).1; omega
+
+/-- before `C06-gac-rhl-zero`: a GeoAnycast packet received with RHL 0 was re-transmitted with RHL 255 -/
+theorem gac_rhl0_old_witness :
+    let c : RCfg := { loct := { self := 1, lifetimeMs := 20000, dplLen := 8 }, gacFix := false }
+    let p : Pkt := { kind := .gac, rhl := 0, mhl := 10, so := 5, soPV := { time := 1000 }, sn := 3 }
+    (recvR c {} p {} 1000).2 = [.send { p with rhl := 255 }] ∧
+    (recvR { c with gacFix := true } {} p {} 1000).2 = [] := by decide
+
+/-- a packet is delivered at most once per reception, carries its own identity, and LS packets are never delivered -/
+theorem deliver_identity (c : RCfg) (hg : c.gacFix = true) (s : RSt) (p : Pkt) (env : Env) (now : Nat) (k : Kind)
+    (so sn : Nat) (h : Act.deliver k so sn ∈ (recvR c s p env now).2) :
+    k = p.kind ∧ so = p.so ∧ (p.kind = .shb ∨ sn = p.sn) := by
+  rcases recvR_acts c hg s p env now _ h with ⟨hc, _⟩ | ⟨hok, _, _⟩
+  · cases hc
+  · exact hok.2.2.1 k so sn rfl
+
+/-! ## At most once within the duplicate-detection window (all histories) -/
+
+/-- a multi-hop packet whose sequence number is in the duplicate packet list of its source's live entry causes no
+delivery, no transmission and no timer – only (under CBF) the cancellation of the buffered copy -/
+theorem duplicate_is_quiet (c : RCfg) (hv : c.loct.v = {}) (hg : c.gacFix = true) (s : RSt) (p : Pkt) (env : Env)
+    (now : Nat) (e : Entry) (hu : Uniq s.t) (hm : p.kind.singleHop = false)
+    (hlive : keep (fresh c.loct now) (lookup s.t p.so) = some e) (hin : p.sn ∈ e.dpl) :
+    ∀ act ∈ (recvR c s p env now).2, act = .cancel (p.so, p.sn) :=
+  duplicate_causes_nothing c hv hg s p env now e hu hm hlive hin
+
+/-- whenever a multi-hop packet causes a delivery, a transmission or a CBF timer, the location table accepted it, and
+its sequence number is then the newest element of the source's duplicate packet list -/
+theorem acted_implies_recorded (c : RCfg) (hv : c.loct.v = {}) (hg : c.gacFix = true) (s : RSt) (p : Pkt) (env : Env)
+    (now : Nat) (act : Act) (hu : Uniq s.t) (hm : p.kind.singleHop = false) (hact : act ∈ (recvR c s p env now).2)
+    (hne : act ≠ .cancel (p.so, p.sn)) :
+    ∀ e', lookup (recvR c s p env now).1.t p.so = some e' → ∃ pre, e'.dpl = pre ++ [p.sn] := by
+  rcases recvR_acts c hg s p env now act hact with ⟨hc, _⟩ | ⟨_, hle, hok⟩
+  · exact absurd hc hne
+  · intro e' h'
+    exact accepted_sn_recorded c hv s p env now e' hu hm hle hok h'
+
+/-- ALL HISTORIES.  Start: the entry of `a` lives (PV time in window `B`) and holds `sn` in its duplicate packet list with
+`post` newer sequence numbers behind it (`post = []` right after the first acceptance, see `acted_implies_recorded`).
+Then for every sequence of receptions (any packets of any sources, any opaque inputs) and CBF timer expiries that
+happen not later than `lim ≤ PV time + lifetime` and contain fewer than `L - post.length` multi-hop packets of `a`:
+every reception of `(a, sn)` is quiet – it is neither delivered nor forwarded nor buffered again. -/
+theorem at_most_once_in_window (c : RCfg) (hv : c.loct.v = {}) (hg : c.gacFix = true) (a : Addr) (sn B lim : Nat)
+    (ops : List ROp) (s : RSt) (e : Entry) (pre post : List Nat)
+    (hu : Uniq s.t) (hl : lookup s.t a = some e) (hh : e.hasPV = true) (hw : Win B e.pv.time)
+    (hlim : lim ≤ e.pv.time + c.loct.lifetimeMs) (hdpl : e.dpl = pre ++ sn :: post)
+    (hcnt : post.length + countRx a ops ≤ c.loct.dplLen - 1) (hops : ∀ op ∈ ops, ROpOK a B lim op) :
+    AllQuiet a sn ops (rrun c s ops).2 :=
+  window_quiet c hv hg a sn B ops s e lim pre post hu hl hh hw hlim hdpl hcnt hops
+
+/-- non-vacuity: TSB (5,7) accepted, another packet of 5, a packet of 6, then two replays of (5,7): only the first
+reception delivers and forwards -/
+example :
+    let c : RCfg := { loct := { self := 1, lifetimeMs := 20000, dplLen := 2 } }
+    let p : Pkt := { kind := .tsb, rhl := 3, mhl := 10, so := 5, soPV := { time := 1000 }, sn := 7 }
+    ((rrun c {} [.rx p {} 1000, .rx { p with sn := 8 } {} 1100, .rx { p with so := 6 } {} 1200, .rx p {} 1300,
+        .rx p {} 1400]).2.map List.length) = [2, 2, 2, 0, 0] := by decide
+
+/-- the known finding C06-KF1 (not repaired): a packet whose SO position vector is older than the LocTE lifetime creates
+an entry that is purged within the same reception, so its replay is delivered and forwarded again -/
+theorem at_most_once_stale_witness :
+    let c : RCfg := { loct := { self := 1, lifetimeMs := 20000, dplLen := 8 } }
+    let p : Pkt := { kind := .tsb, rhl := 3, mhl := 10, so := 5, soPV := { time := 1000 }, sn := 7 }
+    (rrun c {} [.rx p {} 30000, .rx p {} 30001]).2 =
+      [[.send (fwd p), .deliver .tsb 5 7], [.send (fwd p), .deliver .tsb 5 7]] := by decide
+
+/-! ## Contention-based forwarding -/
+
+/-- under CBF a duplicate overheard while the copy waits in the buffer cancels it, and the later timer expiry sends
+nothing -/
+theorem cbf_duplicate_cancels (c : RCfg) (hv : c.loct.v = {}) (hg : c.gacFix = true) (hcbf : c.cbf = true)
+    (hfix : c.cbfFix = true) (s : RSt) (p : Pkt) (env : Env) (now : Nat) (e : Entry) (hu : Uniq s.t)
+    (hk : p.kind = .gbc) (hle : p.rhl ≤ p.mhl) (hd : mid p.so ≠ mid c.loct.self)
+    (hlive : keep (fresh c.loct now) (lookup s.t p.so) = some e) (hin : p.sn ∈ e.dpl)
+    (hbuf : bufHas s.buf (p.so, p.sn) = true) :
+    (recvR c s p env now).2 = [.cancel (p.so, p.sn)] ∧
+    bufHas (recvR c s p env now).1.buf (p.so, p.sn) = false ∧
+    (fire (recvR c s p env now).1 (p.so, p.sn)).2 = [] := by
+  have hm : p.kind.singleHop = false := by rw [hk]; rfl
+  have hres : (recv c.loct s.t p.kind p.so p.soPV p.sn now).2 = .dup := by
+    rw [recv_res c.loct hv s.t p.kind p.so p.soPV p.sn now hd hu]
+    simp only [selfOutcome, hlive]
+    simp [(entryStep_some c.loct hv e p.kind p.soPV p.sn).1.2 ⟨hm, hin⟩]
+  have hr : recvR c s p env now =
+      ({ s with t := (recv c.loct s.t p.kind p.so p.soPV p.sn now).1, buf := bufDel s.buf (p.so, p.sn) },
+        [.cancel (p.so, p.sn)]) := by
+    have hres' := hres
+    rw [hk] at hres'
+    unfold recvR
+    simp only [if_neg (Nat.not_lt.2 hle), hk, hres', hcbf, hfix, and_self, if_true, cbfDiscard, hbuf]
+  rw [hr]
+  refine ⟨rfl, bufHas_del _ _, ?_⟩
+  simp only [fire, bufGet_none_of_not_has _ _ (bufHas_del s.buf (p.so, p.sn))]
+
+/-- the timer of a key that is not (or no longer) in the buffer sends nothing -/
+theorem fire_unbuffered_sends_nothing (s : RSt) (k : Key) (h : bufHas s.buf k = false) : fire s k = (s, []) := by
+  simp only [fire, bufGet_none_of_not_has _ _ h]
+
+/-- a CBF timer that does fire sends exactly the buffered copy, and `forward_is_copy`-style: the buffered copy of an
+armed packet is the received packet with RHL one lower -/
+theorem cbf_buffers_copy (c : RCfg) (hg : c.gacFix = true) (s : RSt) (p : Pkt) (env : Env) (now : Nat) (k : Key) (ms : Nat)
+    (h : Act.arm k ms ∈ (recvR c s p env now).2) :
+    2 ≤ p.rhl ∧ k = (p.so, p.sn) ∧ (fire (recvR c s p env now).1 k).2 = [.send { p with rhl := p.rhl - 1 }] := by
+  rcases recvR_acts c hg s p env now _ h with ⟨hc, _⟩ | ⟨hok, _, _⟩
+  · cases hc
+  obtain ⟨h2, _, _, hk, hb⟩ := hok.2.1 k ms rfl
+  refine ⟨h2, hk, ?_⟩
+  simp only [fire, hb]; rfl
+
+/-- before `C06-cbf-duplicate-discards`: the duplicate left the buffered copy in place and the timer sent it -/
+theorem cbf_old_witness :
+    let c : RCfg := { loct := { self := 1, lifetimeMs := 20000, dplLen := 8 }, cbf := true, cbfFix := false }
+    let p : Pkt := { kind := .gbc, rhl := 3, mhl := 10, so := 5, soPV := { time := 1000 }, sn := 7 }
+    let env : Env := { inside := true }
+    (rrun c {} [.rx p env 1000, .rx p env 1010, .fire (5, 7)]).2 =
+      [[.arm (5, 7) 0, .deliver .gbc 5 7], [], [.send (fwd p)]] ∧
+    (rrun { c with cbfFix := true } {} [.rx p env 1000, .rx p env 1010, .fire (5, 7)]).2 =
+      [[.arm (5, 7) 0, .deliver .gbc 5 7], [.cancel (5, 7)], []] := by decide
+
+/-! ## Shrinking hop budget: every causal chain of re-transmissions is finite -/
+
+/-- `q` is a re-transmission caused by the reception of `p` at SOME station in SOME state with SOME opaque inputs:
+sent at once, or buffered under CBF and sent when the timer fires -/
+def Causes (p q : Pkt) : Prop :=
+  ∃ (c : RCfg) (s : RSt) (env : Env) (now : Nat), c.gacFix = true ∧
+    (Act.send q ∈ (recvR c s p env now).2 ∨
+      ∃ k ms, Act.arm k ms ∈ (recvR c s p env now).2 ∧ (fire (recvR c s p env now).1 k).2 = [.send q])
+
+theorem causes_rhl (p q : Pkt) (h : Causes p q) : 2 ≤ p.rhl ∧ q.rhl + 1 = p.rhl := by
+  obtain ⟨c, s, env, now, hg, h | ⟨k, ms, ha, hf⟩⟩ := h
+  · obtain ⟨h1, h2, _⟩ := forward_is_copy c hg s p env now q h; exact ⟨h1, h2⟩
+  · obtain ⟨h1, _, h3⟩ := cbf_buffers_copy c hg s p env now k ms ha
+    rw [h3] at hf
+    cases hf
+    exact ⟨h1, by simp only []; omega⟩
+
+/-- a causal chain `p₀ → p₁ → … → pₙ` (every element caused by the reception of its predecessor, at whatever stations,
+in whatever states, SIMPLE or CBF) -/
+def Chain : List Pkt → Prop
+  | [] => True
+  | [_] => True
+  | p :: q :: r => Causes p q ∧ Chain (q :: r)
+
+/-- all configurations, all stations, all schedules: a chain started by a packet with hop limit `rhl₀` contains at most
+`rhl₀ - 1` re-transmissions (and none at all for `rhl₀ ≤ 1`); the hop limit falls by exactly one per hop -/
+theorem chain_length_bounded : ∀ (l : List Pkt) (p : Pkt), Chain (p :: l) → l.length + 1 ≤ max p.rhl 1 ∧
+    ∀ q ∈ l.getLast?, q.rhl + l.length = p.rhl := by
+  intro l
+  induction l with
+  | nil => intro p _; simp; omega
+  | cons q r ih =>
+    intro p h
+    obtain ⟨h1, h2⟩ := h
+    obtain ⟨c1, c2⟩ := causes_rhl p q h1
+    obtain ⟨i1, i2⟩ := ih q h2
+    refine ⟨by simp only [List.length_cons]; omega, ?_⟩
+    intro x hx
+    cases r with
+    | nil => simp at hx; subst hx; simp; omega
+    | cons y r' =>
+      have := i2 x (by simpa using hx)
+      simp only [List.length_cons] at this ⊢
+      omega
+
 end Props.C06
